@@ -404,9 +404,9 @@ where
     <T as PurlShape>::Error: ErrName + From<purl::ParseError>,
 {
     let parts = &case["parts"];
-    // two ways into the same builder state: the public setters, or (for the Cow::Owned and Purl runs) direct
-    // writes to the public fields, so that values the setters would normalise (empty qualifier values) reach build()
-    let direct = inst == "CowOwned" || inst == "Purl";
+    // two ways into the same builder state: the public setters (Cow, SmallString runs), or direct writes to the
+    // public fields (String and Purl runs), so that values a setter might normalise (empty qualifier values) reach build()
+    let direct = inst == "String" || inst == "Purl";
     let r = catch_unwind(AssertUnwindSafe(|| -> Result<GenericPurl<T>, <T as PurlShape>::Error> {
         let b = if direct { builder_in_state(t, parts) } else { make_builder(t, parts)? };
         b.build()
